@@ -230,6 +230,48 @@ def run(ctx, res):
             if got is None or got.rstrip(b'\n') != want.rstrip(b'\n'):
                 res.fail('C09:cli:' + hx(src)[:60], 'p8tool %s did not write the formatter\'s output (wiring: indentwidth/overwrite)' % what,
                          {'source': hx(src), 'indentwidth': w})
+    # several arguments on one command line, some of them not carts (passed over) or unreadable: every cart's output holds the formatted
+    # code of THAT cart, under that cart's own output name
+    for i in range(ctx.budget(4, 40)):
+        d = os.path.join(ctx.tmp, 'multi%d' % i)
+        os.makedirs(d, exist_ok=True)
+        ow = i % 2 == 1
+        argv, expect = [], []
+        for k in range(rng.randrange(2, 6)):
+            kind = rng.choice(['cart', 'cart', 'cart', 'not-a-cart', 'garbage'])
+            if kind == 'not-a-cart':
+                pth = os.path.join(d, 'n%d%s' % (k, rng.choice(['.txt', '.lua', '.p8.bak', ''])))
+                open(pth, 'wb').write(b'x=0\n')
+            elif kind == 'garbage':
+                pth = os.path.join(d, 'z%d.p8' % k)
+                open(pth, 'wb').write(b'not a cart\n')
+            else:
+                src = gen_lua.gen_program(rng)[0]
+                try:
+                    g = U.make_game(rng=rng, code=src, version=8)
+                except Exception:
+                    continue
+                pth = os.path.join(d, 'c%d.p8' % k)
+                gfile.to_file(g, pth)
+                expect.append((pth if ow else pth[:-3] + '_fmt.p8', F.luafmt(b''.join(g.lua.to_lines()), 2), src))
+            argv.append(pth)
+        with U.quiet(), contextlib.redirect_stdout(io.StringIO()), contextlib.redirect_stderr(io.StringIO()):
+            try:
+                tool.main(['-q', 'luafmt'] + (['--overwrite'] if ow else []) + argv)
+            except BaseException as e:
+                res.fail('C09:cli-multi:%d' % i, 'p8tool luafmt raised %r on a command line of valid carts and skippable arguments' % (e,), {'argv': [os.path.basename(a) for a in argv]})
+                continue
+        res.evaluations += 1
+        res.count('cli-multi')
+        for outp, want, src in expect:
+            got = b''.join(gfile.from_file(outp).lua.to_lines()) if os.path.exists(outp) else None
+            if got is None or got.rstrip(b'\n') != want.rstrip(b'\n'):
+                res.fail('C09:cli-multi:%d' % i, '%s does not hold the formatter\'s output for its own cart (command line: %s)' % (
+                    os.path.basename(outp), ' '.join(os.path.basename(a) for a in argv)), {'argv': [os.path.basename(a) for a in argv], 'overwrite': ow, 'source': hx(src)})
+                break
+        extra = sorted(set(os.listdir(d)) - {os.path.basename(a) for a in argv} - {os.path.basename(o) for o, _, _ in expect})
+        if extra:
+            res.fail('C09:cli-multi:%d' % i, 'the command wrote files that belong to no cart on the command line: %s' % extra, {'argv': [os.path.basename(a) for a in argv], 'overwrite': ow})
 
 
 def cli_unparseable(ctx, res):
